@@ -94,9 +94,9 @@ conf() {
     C04) Q=50   T=700 ;;
     C05) Q=60   T=900 ;;
     C06) Q=150  T=2000 ;;
-    C07) Q=70   T=1500 ;;
+    C07) Q=50   T=1200 ;;
     C08) Q=40   T=600 ;;
-    C09) Q=50   T=600 ;;
+    C09) Q=40   T=600 ;;
     C10) Q=15   T=300 ;;
     C11) Q=6    T=150 ;;
     C12) Q=100  T=1200 ;;
@@ -176,10 +176,12 @@ main_check() {
   for k in $(seq 0 $((NSHARDS-1))); do run_shard "$id" "$k" "$n" & done
   wait
   # thorough-only fuzz engines (native go fuzz / libFuzzer) are run by the test binary's TestFuzzTier via driver hooks
-  if [ "$TIER" = thorough ] && [ -x "$VERIF/fuzz/run_$id.sh" ]; then
-    VERIF_S="$S" VERIF_H="$H" bash "$VERIF/fuzz/run_$id.sh" >"$S/fuzz.log" 2>&1
+  if [ "$TIER" = thorough ] && [ -x "$VERIF/fuzz/run_$id.sh" ] && [ "${VERIF_NOFUZZ:-0}" != 1 ]; then
+    VERIF_S="$S" VERIF_H="$H" VERIF_DIR="$VERIF" VERIF_REPO="$REPO" VERIF_SEED="$SEED" bash "$VERIF/fuzz/run_$id.sh" >"$S/fuzz.log" 2>&1
     local frc=$?
-    if [ $frc -eq 1 ]; then grep '^VIOLATION ' "$S/fuzz.log"; viol=1; elif [ $frc -ne 0 ]; then tail -20 "$S/fuzz.log" >&2; log "fuzz engine inconclusive (rc=$frc)"; fi
+    if [ $frc -eq 1 ]; then grep '^VIOLATION ' "$S/fuzz.log"; grep -v '^VIOLATION ' "$S/fuzz.log" | head -8 >&2; viol=1
+    elif [ $frc -ne 0 ]; then tail -20 "$S/fuzz.log" >&2; log "fuzz engine inconclusive (rc=$frc): its result is not part of the verdict"; fi
+    [ -f "$S/fuzz_stats.json" ] && FUZZ_STATS="$S/fuzz_stats.json"
   fi
 
   local infra=0 seenkeys=" "
@@ -219,6 +221,10 @@ case "${1:-}" in
     [ -d "${2:-}" ] || die2 "usage: verif.sh replay <dir>"
     dir="$(cd "$2" && pwd)"
     id=$(python3 -c "import json,sys;print(json.load(open('$dir/case.json'))['property'])") || die2 "bad case"
+    # inputs saved by the libFuzzer engines are replayed by rebuilding that target
+    if python3 -c "import json,sys;sys.exit(0 if json.load(open('$dir/case.json')).get('engine','').startswith('libfuzzer:') else 1)"; then
+      VERIF_DIR="$VERIF" VERIF_REPO="$REPO" bash "$VERIF/fuzz/replay_libfuzzer.sh" "$dir"; exit $?
+    fi
     TIER=quick; NEED=""; conf "$id"
     mk_scratch; prep_harness; build_ferret; [ -n "$NEED" ] && build_cdrv "$NEED"; build_tests
     mkdir -p "$S/replay"
